@@ -123,9 +123,10 @@ Proof.
     specialize (IH HS'). pose proof (W_spec C a) as HWa. lia.
 Qed.
 
-Lemma light_bin C l : Forall (fun a => 0 <= a) l -> zsum l <= C -> wsum C l <= 17 * C.
+Lemma light_bin_gen C l d : 0 <= d <= 1 -> d <= C ->
+  Forall (fun a => 0 <= a) l -> zsum l <= C -> wsum C l <= 17 * C - d.
 Proof.
-  intros Hnn HS. pose proof (zsum_nonneg l Hnn) as H0.
+  intros Hd HdC Hnn HS. pose proof (zsum_nonneg l Hnn) as H0.
   destruct (Forall_Exists_dec (fun a => 2 * a <= C) (fun a => Z_le_dec (2 * a) C) l) as [Hnb|Hbig].
   - pose proof (wsum_le_15 C l Hnn Hnb). lia.
   - apply Exists_exists in Hbig. destruct Hbig as (x & Hin & Hx).
@@ -141,6 +142,18 @@ Proof.
     pose proof (W_spec C x) as HWx. lia.
 Qed.
 
+(** Lemma 1 *)
+Lemma light_bin C l : Forall (fun a => 0 <= a) l -> zsum l <= C -> wsum C l <= 17 * C.
+Proof.
+  intros Hnn HS. pose proof (zsum_nonneg l Hnn) as H0.
+  assert (H : wsum C l <= 17 * C - 0) by (apply light_bin_gen; auto; lia). lia.
+Qed.
+
+(** ... with a strict inequality when the capacity is positive *)
+Lemma light_bin_strict C l : 0 < C ->
+  Forall (fun a => 0 <= a) l -> zsum l <= C -> wsum C l <= 17 * C - 1.
+Proof. intros HC Hnn HS. apply light_bin_gen; auto; lia. Qed.
+
 (** ---- 3. Lemma 1 lifted to a packing ---- *)
 Lemma Forall_concat_elim (P : Z -> Prop) (G : list (list Z)) :
   Forall P (concat G) -> Forall (Forall P) G.
@@ -149,24 +162,33 @@ Proof.
   apply Forall_app in H. destruct H as [H1 H2]. constructor; [exact H1|apply IH; exact H2].
 Qed.
 
-Lemma wsum_concat_le C (G : list (list Z)) :
-  Forall (fun g => wsum C g <= 17 * C) G -> wsum C (concat G) <= 17 * C * Z.of_nat (length G).
+Lemma wsum_concat_le C K (G : list (list Z)) :
+  Forall (fun g => wsum C g <= K) G -> wsum C (concat G) <= K * Z.of_nat (length G).
 Proof.
   intros H. induction H as [|g G Hg HG IH]; [cbn [concat length Z.of_nat]; rewrite wsum_nil; lia|].
   cbn [concat length]. rewrite wsum_app, Nat2Z.inj_succ. lia.
 Qed.
 
-Lemma packable_wsum C vs n : Forall (fun a => 0 <= a) vs -> Packable C vs n ->
-  wsum C vs <= 17 * C * Z.of_nat n.
+Lemma packable_wsum_gen C K vs n :
+  (forall g, Forall (fun a => 0 <= a) g -> zsum g <= C -> wsum C g <= K) ->
+  Forall (fun a => 0 <= a) vs -> Packable C vs n -> wsum C vs <= K * Z.of_nat n.
 Proof.
-  intros Hnn Hp. apply packable_gpack in Hp. destruct Hp as (G & HL & HP & HF).
+  intros HK Hnn Hp. apply packable_gpack in Hp. destruct Hp as (G & HL & HP & HF).
   rewrite <- (wsum_perm C _ _ HP), <- HL. apply wsum_concat_le.
   assert (Hnn' : Forall (Forall (fun a => 0 <= a)) G).
   { apply Forall_concat_elim. eapply Permutation_Forall; [symmetry; exact HP|exact Hnn]. }
   clear HL HP. induction HF as [|g G Hg HG IH]; [constructor|].
   apply Forall_cons_iff in Hnn'. destruct Hnn' as [Hg0 HG0].
-  constructor; [apply light_bin; assumption|apply IH; exact HG0].
+  constructor; [apply HK; assumption|apply IH; exact HG0].
 Qed.
+
+Lemma packable_wsum C vs n : Forall (fun a => 0 <= a) vs -> Packable C vs n ->
+  wsum C vs <= 17 * C * Z.of_nat n.
+Proof. apply packable_wsum_gen. intros g. apply light_bin. Qed.
+
+Lemma packable_wsum_strict C vs n : 0 < C -> Forall (fun a => 0 <= a) vs -> Packable C vs n ->
+  wsum C vs <= (17 * C - 1) * Z.of_nat n.
+Proof. intros HC. apply packable_wsum_gen. intros g. apply light_bin_strict. exact HC. Qed.
 
 (** ---- 4. Lemma 2: first-fit bins are heavy ---- *)
 Section Heavy.
